@@ -1,0 +1,49 @@
+//go:build verif
+
+package literal
+
+// Contracts for the verification machinery in /verif (comment-only file;
+// excluded from every build without the "verif" tag).
+
+//@ func (*Form).appendEscape
+//@   assumed A-int: appends a backslash and hashCount '#' characters
+//@   ensures len(result) == len(buf) + 1 + f.hashCount
+//@ func (*Form).isPrint
+//@   assumed A-int: printability tables of strconv
+//@ func unicode/utf8.AppendRune
+//@   assumed A-ext utf8.AppendRune
+//@   ensures len(result) >= len(p) + 1 && len(result) <= len(p) + 4
+
+// (P) C09 "each quoting form ... unquotes to exactly the original": the escape
+// \xNN denotes the single byte NN, which is the encoding of a rune only for
+// ASCII; so the byte escape may be chosen only for runes below 0x80 (every other
+// rune is written as \uNNNN / \UNNNNNNNN or literally). The lookups into the
+// 16-entry hex table are in bounds.
+//@ func (*Form).appendEscapedRune
+//@   arith bv
+//@   requires f != nil && f.hashCount >= 0 && r >= 0
+//@   effect append#8 requires r < 128 && r >= 0
+//@   loop 0 invariant s <= 12 && s % 4 == 0
+//@   loop 1 invariant s <= 28 && s % 4 == 0
+//@   assigns heap
+
+//@ func strings.ContainsAny
+//@   assumed A-ext strings.ContainsAny: pure
+//@   pure
+
+// a run of at least h '#' characters starts at position p
+//@ spec func hashRun(s string, p int, h int) bool { forall j int :: p <= j && j < p + h ==> j < len(s) && s[j] == '#' }
+
+// (P) C09: the escape-free form #"..."# chosen by WithOptionalHashes reads back
+// as the original: with h hashes no quote or backslash inside the content is
+// followed by h hashes (so the content cannot close the literal early and
+// contains no escape), and the literal does not start with three quote
+// characters (which would open a multi-line string).
+//@ func (*Form).singleLineHashCount
+//@   requires f != nil && (f.quote == '"' || f.quote == '\'')
+//@   loop 0 invariant 0 <= i && i <= len(s) && hashCount >= 1
+//@   loop 0 invariant forall k int :: 0 <= k && k < i && (s[k] == f.quote || s[k] == '\\') ==> !hashRun(s, k + 1, hashCount)
+//@   loop 1 invariant 0 <= run && i + run <= len(s) && forall j int :: i <= j && j < i + run ==> s[j] == '#'
+//@   ensures [noearlyclose] result > 0 ==> forall k int :: 0 <= k && k < len(s) && (s[k] == f.quote || s[k] == '\\') ==> !hashRun(s, k + 1, result)
+//@   ensures [notriple] result > 0 ==> !(len(s) >= 2 && s[0] == f.quote && s[1] == f.quote)
+//@   assigns heap
